@@ -358,3 +358,42 @@ pub proof fn lemma_count_elements(parts: Seq<crate::parser::ContentPart>, a: int
         }
     }
 }
+
+// ---- the two concrete strategies keep the promises collect_spec's lemmas need ----
+pub proof fn lemma_unwrap_spec_ok(b: Seq<u8>, el: crate::parser::Element)
+    requires el_wf(el),
+    ensures builder_ok(el, unwrap_spec(b, el)),
+{
+    let te = el.start_token.byte_end as int;
+    let es = el.end_token.byte_start as int;
+    lemma_next_lb(b, te, false);
+    if next_lb(b, te, false) is Some { lemma_next_lb(b, next_lb(b, te, false)->0 + 1, false); }
+    lemma_prev_lb(b, es, false);
+    if prev_lb(b, es, false) is Some { lemma_prev_lb(b, prev_lb(b, es, false)->0, false); }
+}
+pub proof fn lemma_unwrap_spec_on_b(b: Seq<u8>, el: crate::parser::Element)
+    requires valid_utf8(b), el_wf(el), el_on_b(el, b),
+    ensures range_on_b(unwrap_spec(b, el), b),
+{
+    let te = el.start_token.byte_end as int;
+    let es = el.end_token.byte_start as int;
+    lemma_next_lb(b, te, false);
+    if next_lb(b, te, false) is Some {
+        let n1 = next_lb(b, te, false)->0;
+        lemma_next_lb(b, n1 + 1, false);
+        if next_lb(b, n1 + 1, false) is Some {
+            let n2 = next_lb(b, n1 + 1, false)->0;
+            lemma_ascii_is_boundary(b, n2);
+        }
+    }
+    lemma_prev_lb(b, es, false);
+    if prev_lb(b, es, false) is Some {
+        let p1 = prev_lb(b, es, false)->0;
+        lemma_prev_lb(b, p1, false);
+        if prev_lb(b, p1, false) is Some {
+            let p2 = prev_lb(b, p1, false)->0;
+            lemma_ascii_is_boundary(b, p2);
+            lemma_ascii_next_boundary(b, p2);
+        }
+    }
+}
